@@ -193,6 +193,26 @@ Theorem site_lateral_join_drf : forall cap pre post len n, 1 <= n ->
   race_free cap (tm_exec pre post lateral_body (fun _ => []) (fun _ => false) len n).
 Proof. exact site_lateral_drf. Qed.
 
+(* ---- F-C13-4: the field-index cache of outer records, shared by the goroutines of an inner query -- *)
+Definition outer_cache_race_free : Prop :=
+  forall cap pre post misses len n, 1 <= n ->
+    race_free cap (tm_exec pre post (outer_cache_body misses) (fun _ => []) (fun _ => false) len n).
+Theorem C13_outer_cache_race : forall cap pre post misses len n i j k kj,
+  i <> j -> i < n -> j < n -> In k (range len n i) -> In kj (range len n j) -> misses k = true ->
+  race cap (tm_exec pre post (outer_cache_body misses) (fun _ => []) (fun _ => false) len n).
+Proof. exact outer_cache_race. Qed.
+Theorem C13_outer_cache_race_refuted : ~ outer_cache_race_free.
+Proof.
+  intros H. apply (H no_cap [] [] (fun k => Nat.eqb k 0) 160 2 (le_S _ _ (le_n 1))).
+  apply (outer_cache_race no_cap [] [] _ 160 2 0 1 0 80); auto.
+  - vm_compute. auto.
+  - vm_compute. auto 100.
+Qed.
+Print Assumptions C13_outer_cache_race_refuted.
+Theorem C13_outer_cache_partial : forall cap pre post len n, 1 <= n ->
+  race_free cap (tm_exec pre post (outer_cache_body (fun _ => false)) (fun _ => []) (fun _ => false) len n).
+Proof. exact outer_cache_warm_drf. Qed.
+
 (* ---- F-C13-2: the loaders ---------------------------------------------------------------------------- *)
 Definition loader_race_free : Prop := forall m fails, race_free loader_cap (loader_exec true m fails).
 Theorem C13_loader_pos_race_refuted : ~ loader_race_free.
